@@ -1,5 +1,26 @@
 import IOptProofs.ProcInterpDefs
 import IOptProofs.ProcessToy
+/-!
+# The control skeleton of `process.py`, taken from the SOURCE TEXT, is the model's `doGlobalIteration` / `solve`
+
+`IOptGen/ProcessSrc.lean` (regenerated from `iOpt/method/process.py` on every run) holds the bodies of `Process.DoGlobalIteration`
+and `Process.Solve` as statement trees.  `IOptProofs/ProcInterpDefs.lean` interprets such trees, generically, over the model's
+primitive steps.  Here:
+
+* `commit_eq_parts`: `AGP.commit` = `FinalizeIteration ∘ RenewSearchData ∘ UpdateOptimum ∘` (the end of `CalculateFunctionals`),
+  in the order of the source;
+* `doGlobalIteration_src`: interpretation of the generated tree of `DoGlobalIteration` = `Proc.doGlobalIteration p f number ps []`;
+* `whileLoop_spec`: `try: while …: self.DoGlobalIteration() except BaseException: print(…)` = `Proc.solveLoop` at the same fuel;
+* `solve_src_fuel`, `solve_src`: interpretation of the generated tree of `Solve` = `Proc.solve p f refine ps`;
+* `Examples`: runs of the interpreter on the generated trees over `ℚ`, and seeded edits of the trees (`UpdateOptimum` /
+  `RenewSearchData` swapped, the flag not reset, the `while` outside the `try`, the first iteration outside the `try`) on which
+  the interpretation is NOT the model.
+
+Correspondence of result types: `POut.done g` ~ `Proc.Res` with `s = g.ps`, `raised = none`; `POut.raised g e` ~ `s = g.ps`,
+`raised = some e` (`POut.ofRes`, `POut.toRes`); `g.first` is the field `__first_iteration`, which the model encodes as
+`ps.m = none` (`Glob.ofP`); the theorems start from an object in which the two agree (true after `Process.__init__`) and say that
+they agree again at the end.
+-/
 
 set_option linter.unusedSectionVars false
 
@@ -61,8 +82,7 @@ theorem body_spec (c : Ctx α) (env : ProcEnv α) (fuel : Nat) :
     cases hf : c.f (ps.calls + 1 - 1) (firstPoint c.p) with
     | none => simp only []; exact ⟨_, rfl⟩
     | some z =>
-      simp only [lk_appendLast, Prim.allowed, Bool.not_false, ↓reduceIte, execPrim, hl, lk_aFirst, Bool.false_eq_true,
-        execAssign]
+      simp only [lk_appendLast, ↓reduceIte, hl, lk_aFirst, Bool.false_eq_true, execAssign]
       exact ⟨_, rfl, rfl⟩
   | some s =>
     simp only [execList, execStmt, lk_cFirst, evalCond, Glob.ofP, hm, Option.isNone_some, Bool.false_eq_true, ↓reduceIte,
@@ -70,12 +90,11 @@ theorem body_spec (c : Ctx α) (env : ProcEnv α) (fuel : Nat) :
     cases hp : prepare c.p s with
     | error e => obtain ⟨s', e⟩ := e; simp only []; exact ⟨_, rfl⟩
     | ok pr =>
-      simp only [lk_appendNew, Prim.allowed, Bool.not_false, ↓reduceIte, execPrim, hl, lk_calcF]
+      simp only [lk_appendNew, ↓reduceIte, hl, lk_calcF]
       cases hf : c.f (ps.calls + 1 - 1) pr.point with
       | none => simp only []; exact ⟨_, rfl⟩
       | some z =>
-        simp only [lk_upd, lk_renew, lk_fin, Prim.allowed, Bool.not_false, ↓reduceIte, execPrim, IState.setPs,
-          commit_eq_parts]
+        simp only [lk_upd, lk_renew, lk_fin, ↓reduceIte, commit_eq_parts]
         exact ⟨_, rfl, rfl⟩
 
 /-- what follows the loop in `DoGlobalIteration`: the `OnEndIteration` round; a raise propagates -/
@@ -149,5 +168,398 @@ theorem doGlobalIteration_src (c : Ctx α) (depth fuel number : Nat) (ps : PStat
   rw [h1]
   exact loopN_spec c _ (body_spec c (envN c fuel depth) fuel) number ps _ [] rfl
 
+/-! ### `Solve` -/
+theorem lk_now : primTable.lookup (["startTime"], "datetime.now", []) = some .now := by decide
+theorem lk_print : primTable.lookup ([], "print", ["'Exception was thrown'"]) = some .printExc := by decide
+theorem lk_dlr : primTable.lookup ([], "self.DoLocalRefinement", ["-1"]) = some .doLocalRefinement := by decide
+theorem lk_getRes : primTable.lookup (["result"], "self.GetResults", []) = some .getResults := by decide
+theorem lk_total : primTable.lookup (["result.solvingTime"], "(datetime.now() - startTime).total_seconds", []) = some .totalSeconds := by decide
+theorem lk_check : primTable.lookup (["status"], "self.method.CheckStopCondition", []) = some .checkStop := by decide
+theorem lk_stop : primTable.lookup ([], "listener.OnMethodStop", ["self.searchData", "self.GetResults()", "status"]) = some .onMethodStop := by decide
+theorem lk_dgi : primTable.lookup ([], "self.DoGlobalIteration", []) = none := by decide
+theorem lk_cNotStop : condTable.lookup "not self.method.CheckStopCondition()" = some .notStop := by decide
+theorem lk_cRefine : condTable.lookup "self.parameters.refineSolution" = some .refineRequested := by decide
+theorem lk_procDgi : procTable.lookup "self.DoGlobalIteration" =
+    some (doGlobalIterationParams, doGlobalIterationDefaults, Gen.ProcSrc.doGlobalIteration) := by rfl
+
+/-- `self.DoGlobalIteration()` binds `number` to its default `1`, whatever the caller's locals -/
+theorem bind_dgi (ints : List (String × Nat)) :
+    bindArgs doGlobalIterationParams doGlobalIterationDefaults [] ints = some [("number", 1)] := by
+  have h : intLits.lookup "1" = some 1 := by decide
+  simp [bindArgs, doGlobalIterationParams, doGlobalIterationDefaults, bindAll, evalNat, h]
+
+/-- the statement `self.DoGlobalIteration()` at call depth `d+1` is `Proc.doGlobalIteration p f 1 ps []`; the caller's locals survive -/
+theorem call_dgi (c : Ctx α) (d fuel : Nat) (ps : PState α) (l : Locals α) :
+    execList c (envN c fuel (d+1)) fuel false [.call [] "self.DoGlobalIteration" []] ⟨Glob.ofP ps, l⟩ =
+      match (Proc.doGlobalIteration c.p c.f 1 ps []).raised with
+      | none => .normal ⟨Glob.ofP (Proc.doGlobalIteration c.p c.f 1 ps []).s, l⟩
+      | some e => .raised ⟨Glob.ofP (Proc.doGlobalIteration c.p c.f 1 ps []).s, l⟩ e := by
+  have h := doGlobalIteration_src c d fuel 1 ps
+  simp only [run] at h
+  simp only [execList, execStmt, lk_dgi, envN, lk_procDgi, bind_dgi, and_self, ↓reduceIte, h, POut.ofRes]
+  cases (Proc.doGlobalIteration c.p c.f 1 ps []).raised <;> rfl
+
+/-- `try: while not stop: body  except BaseException: handler`, for a body that is `doGlobalIteration 1` and a handler that
+prints, is `Proc.solveLoop` at the same fuel -/
+theorem whileLoop_spec (c : Ctx α) (b h : IState α → Out α)
+    (hb : ∀ ps l, b ⟨Glob.ofP ps, l⟩ =
+      match (Proc.doGlobalIteration c.p c.f 1 ps []).raised with
+      | none => .normal ⟨Glob.ofP (Proc.doGlobalIteration c.p c.f 1 ps []).s, l⟩
+      | some e => .raised ⟨Glob.ofP (Proc.doGlobalIteration c.p c.f 1 ps []).s, l⟩ e)
+    (hh : ∀ (ps : PState α) l, h ⟨Glob.ofP ps, l⟩ = .normal ⟨Glob.ofP { ps with log := ps.log ++ [Event.exceptionPrinted] }, l⟩) :
+    ∀ (fuel : Nat) (ps : PState α) (l : Locals α),
+      (match whileLoop fuel (evalCond c .notStop) b ⟨Glob.ofP ps, l⟩ with
+       | .raised st' _ => h st'
+       | o => o) = .normal ⟨Glob.ofP (solveLoop c.p c.f fuel ps).1, l⟩ := by
+  intro fuel
+  induction fuel with
+  | zero => intro ps l; rfl
+  | succ fuel ih =>
+    intro ps l
+    rw [whileLoop, solveLoop]
+    cases hs : stopNow c.p ps with
+    | true => simp [evalCond, Glob.ofP, hs]
+    | false =>
+      simp only [evalCond, Glob.ofP, hs, Bool.not_false, ↓reduceIte, Bool.false_eq_true]
+      have hb' := hb ps l
+      simp only [Glob.ofP] at hb'
+      rw [hb']
+      cases hr : (Proc.doGlobalIteration c.p c.f 1 ps []).raised with
+      | none => simp only []; exact ih _ l
+      | some e => simp only []; exact hh _ l
+
+/-- what `Proc.solve` does after the loop: refinement if the oracle answers, then the `OnMethodStop` round -/
+def finishSolve (p : Params α) (refine : PState α → Option (LocalResult α)) (ps : PState α) : PState α :=
+  let ps := match refine ps with
+    | some lr => Proc.doLocalRefinement ps lr
+    | none => ps
+  { ps with log := ps.log ++ [Event.methodStop (stopNow p ps)] }
+
+theorem solve_eq_finish (p : Params α) (f : Nat → List α → Option α) (refine : PState α → Option (LocalResult α)) (ps : PState α) :
+    Proc.solve p f refine ps = finishSolve p refine (solveLoop p f (p.itersLimit + 1) ps).1 := rfl
+
+theorem doLocalRefinement_isNone (ps : PState α) (lr : LocalResult α) : (Proc.doLocalRefinement ps lr).m.isNone = ps.m.isNone := by
+  unfold Proc.doLocalRefinement; split <;> simp_all
+
+/-- the while-body and the handler of a `Solve`-shaped function -/
+def tryPartsOf : List Stmt → List Stmt × List Stmt
+  | _ :: .tryExcept [.while _ wb] _ hd :: _ => (wb, hd)
+  | _ => ([], [])
+
+theorem solve_shape : Gen.ProcSrc.solve =
+    [.call ["startTime"] "datetime.now" [],
+     .tryExcept [.while "not self.method.CheckStopCondition()" (tryPartsOf Gen.ProcSrc.solve).1] "BaseException"
+       (tryPartsOf Gen.ProcSrc.solve).2,
+     .ite "self.parameters.refineSolution" [.call [] "self.DoLocalRefinement" ["-1"]] [],
+     .call ["result"] "self.GetResults" [],
+     .call ["result.solvingTime"] "(datetime.now() - startTime).total_seconds" [],
+     .forEach "listener" "self.__listeners" [
+       .call ["status"] "self.method.CheckStopCondition" [],
+       .call [] "listener.OnMethodStop" ["self.searchData", "self.GetResults()", "status"]],
+     .ret "result"] := rfl
+
+/-- a function of the shape of `Solve`, whatever the body of its `while` and its handler, when the `try` statement ends normally -/
+theorem run_solve_shape (c : Ctx α) (depth fuel : Nat) (wb hd : List Stmt) (g : Glob α) (ps' : PState α)
+    (htry : (match whileLoop fuel (evalCond c .notStop) (fun s => execList c (envN c fuel depth) fuel false wb s)
+                ⟨g, { startTime := true }⟩ with
+             | .raised st' _ => (fun s => execList c (envN c fuel depth) fuel false hd s) st'
+             | o => o) = .normal ⟨Glob.ofP ps', { startTime := true }⟩) :
+    run c depth fuel
+      [.call ["startTime"] "datetime.now" [],
+       .tryExcept [.while "not self.method.CheckStopCondition()" wb] "BaseException" hd,
+       .ite "self.parameters.refineSolution" [.call [] "self.DoLocalRefinement" ["-1"]] [],
+       .call ["result"] "self.GetResults" [],
+       .call ["result.solvingTime"] "(datetime.now() - startTime).total_seconds" [],
+       .forEach "listener" "self.__listeners" [
+         .call ["status"] "self.method.CheckStopCondition" [],
+         .call [] "listener.OnMethodStop" ["self.searchData", "self.GetResults()", "status"]],
+       .ret "result"] [] g =
+    .done (Glob.ofP (finishSolve c.p c.refine ps')) := by
+  have e1 : execList c (envN c fuel depth) fuel false
+      [.tryExcept [.while "not self.method.CheckStopCondition()" wb] "BaseException" hd] ⟨g, { startTime := true }⟩ =
+      .normal ⟨Glob.ofP ps', { startTime := true }⟩ := by
+    rw [← htry]
+    simp only [execList, execStmt, lk_cNotStop, ↓reduceIte]
+    cases whileLoop fuel _ _ _ <;> simp only []
+    cases execList c (envN c fuel depth) fuel false hd _ <;> rfl
+  have e0 : execStmt c (envN c fuel depth) fuel false (.call ["startTime"] "datetime.now" []) ⟨g, { }⟩ =
+      .normal ⟨g, { startTime := true }⟩ := by
+    simp only [execStmt, lk_now, Prim.allowed, Bool.not_false, ↓reduceIte, execPrim]
+  rw [run, runBody, execList, e0]
+  simp only []
+  rw [execList] at e1
+  rw [execList]
+  revert e1
+  cases execStmt c (envN c fuel depth) fuel false (.tryExcept [.while "not self.method.CheckStopCondition()" wb] "BaseException" hd) ⟨g, { startTime := true }⟩ with
+  | normal st =>
+    intro e1
+    simp only [execList, Out.normal.injEq] at e1
+    subst e1
+    simp only []
+    have hret : retTable.contains "result" = true := by decide
+    cases hr : c.refine ps' with
+    | none =>
+      simp only [execList, execStmt, lk_cRefine, evalCond, Glob.ofP, hr, Option.isSome_none, Bool.false_eq_true, ↓reduceIte,
+        lk_getRes, lk_total, lk_check, lk_stop, Prim.allowed, Bool.not_false, execPrim, IState.setPs, Bool.and_self, and_self,
+        hret, finishSolve]
+    | some lr =>
+      simp only [execList, execStmt, lk_cRefine, evalCond, Glob.ofP, hr, Option.isSome_some, ↓reduceIte, lk_dlr,
+        lk_getRes, lk_total, lk_check, lk_stop, Prim.allowed, Bool.not_false, execPrim, IState.setPs, Bool.and_self, and_self,
+        hret, finishSolve, doLocalRefinement_isNone]
+  | returned st => intro e1; simp only [reduceCtorEq] at e1
+  | raised st e => intro e1; simp only [reduceCtorEq] at e1
+  | stuck => intro e1; simp only [reduceCtorEq] at e1
+
+theorem handler_print (c : Ctx α) (env : ProcEnv α) (fuel : Nat) (ps : PState α) (l : Locals α) :
+    execList c env fuel false [.call [] "print" ["'Exception was thrown'"]] ⟨Glob.ofP ps, l⟩ =
+      .normal ⟨Glob.ofP { ps with log := ps.log ++ [Event.exceptionPrinted] }, l⟩ := by
+  simp only [execList, execStmt, lk_print, Prim.allowed, Bool.not_false, ↓reduceIte, execPrim, IState.setPs, Glob.ofP]
+
+/-- **`Solve`, source tree = model, at every fuel.**  The interpretation of the statement tree generated from the source text of
+`Process.Solve` (which calls `self.DoGlobalIteration()` through ITS generated tree, call depth `d+1 ≥ 1`), with `while`-fuel
+`fuel`, returns normally, and its final state is what `Proc.solve` computes from `Proc.solveLoop` at the same fuel:
+refinement when the oracle answers, then the `OnMethodStop` round. -/
+theorem solve_src_fuel (c : Ctx α) (d fuel : Nat) (ps : PState α) :
+    run c (d+1) fuel Gen.ProcSrc.solve [] (Glob.ofP ps) =
+      .done (Glob.ofP (finishSolve c.p c.refine (solveLoop c.p c.f fuel ps).1)) := by
+  have hw := whileLoop_spec c
+    (fun s => execList c (envN c fuel (d+1)) fuel false (tryPartsOf Gen.ProcSrc.solve).1 s)
+    (fun s => execList c (envN c fuel (d+1)) fuel false (tryPartsOf Gen.ProcSrc.solve).2 s)
+    (fun ps l => call_dgi c d fuel ps l) (fun ps l => handler_print c _ fuel ps l) fuel ps { startTime := true }
+  have h := run_solve_shape c (d+1) fuel _ _ (Glob.ofP ps) _ hw
+  rw [← solve_shape] at h
+  exact h
+
+/-- **`Solve`, source tree = model.**  With the fuel of the model (`itersLimit + 1`, which always suffices:
+`IOptProps/C03.lean`), the interpretation of the generated tree of `Process.Solve` is `Proc.solve p f refine ps`. -/
+theorem solve_src (c : Ctx α) (d : Nat) (ps : PState α) :
+    run c (d+1) (c.p.itersLimit + 1) Gen.ProcSrc.solve [] (Glob.ofP ps) =
+      .done (Glob.ofP (Proc.solve c.p c.f c.refine ps)) := by
+  rw [solve_src_fuel, solve_eq_finish]
+
+/-! ### the same statements through `Proc.Res`, and with `refineSolution` as a Boolean parameter -/
+
+theorem toRes_ofRes (r : Res α) : (POut.ofRes r).toRes = some r := by
+  obtain ⟨s, raised⟩ := r
+  cases raised <;> rfl
+
+/-- `doGlobalIteration_src` read through `POut.toRes`: the tree is not stuck and yields exactly the model's `Res` -/
+theorem doGlobalIteration_src_res (c : Ctx α) (depth fuel number : Nat) (ps : PState α) :
+    (run c depth fuel Gen.ProcSrc.doGlobalIteration [("number", number)] (Glob.ofP ps)).toRes =
+      some (Proc.doGlobalIteration c.p c.f number ps []) := by
+  rw [doGlobalIteration_src, toRes_ofRes]
+
+/-- How `self.parameters.refineSolution` is connected to the model's oracle `refine : PState α → Option (LocalResult α)`:
+the condition is interpreted as `(refine ps).isSome` at the state in which it is tested, and `self.DoLocalRefinement(-1)` (only
+reached when the condition holds, on the same state) as `Proc.doLocalRefinement ps lr` for `refine ps = some lr`.  For a solver
+with the Boolean parameter `refineSolution` and a total description `oracle` of what scipy's Nelder–Mead returns, the oracle
+is `fun ps => if refineSolution then some (oracle ps) else none`; then the condition is the parameter itself … -/
+theorem refine_cond_flag (p : Params α) (f : Nat → List α → Option α) (refineSolution : Bool) (oracle : PState α → LocalResult α)
+    (st : IState α) :
+    evalCond { p := p, f := f, refine := fun ps => if refineSolution then some (oracle ps) else none } .refineRequested st =
+      refineSolution := by
+  cases refineSolution <;> rfl
+
+/-- … and `solve_src` specialises to it. -/
+theorem solve_src_flag (p : Params α) (f : Nat → List α → Option α) (refineSolution : Bool) (oracle : PState α → LocalResult α)
+    (d : Nat) (ps : PState α) :
+    run { p := p, f := f, refine := fun ps => if refineSolution then some (oracle ps) else none } (d+1) (p.itersLimit + 1)
+        Gen.ProcSrc.solve [] (Glob.ofP ps) =
+      .done (Glob.ofP (Proc.solve p f (fun ps => if refineSolution then some (oracle ps) else none) ps)) :=
+  solve_src { p := p, f := f, refine := fun ps => if refineSolution then some (oracle ps) else none } d ps
+
 end ProcInterp
 end
+
+/-! ## Non-vacuity, and what the ties exclude: concrete runs over `ℚ` (`ProcToy`) -/
+
+namespace ProcInterp.Examples
+open AGP Proc ProcToy
+open Gen.ProcSrc (Stmt)
+
+/-- toy context: one dimension, `r = 2`, `eps = 1/100`, budget `lim` -/
+def C (lim : Nat) (f : Nat → List Rat → Option Rat) (refine : PState Rat → Option (LocalResult Rat) := noRefine) : Ctx Rat :=
+  { p := P lim (1/100), f := f, refine := refine }
+
+/-- a decidable view of an outcome: log, calls, `numberOfLocalTrials`, flag, exception, (id, characteristic) of every item -/
+structure View where
+  log : List Event
+  calls : Nat
+  nLocal : Nat
+  first : Bool
+  exc : Option Raise
+  items : Option (List (Nat × Option Rat))
+deriving DecidableEq
+
+def viewG (g : Glob Rat) (e : Option Raise) : View :=
+  { log := g.ps.log, calls := g.ps.calls, nLocal := g.ps.nLocal, first := g.first, exc := e,
+    items := g.ps.m.map fun s => s.items.map fun it => (it.id, it.R) }
+
+/-- `none`: stuck -/
+def view (o : POut Rat) : Option View :=
+  match o with
+  | .done g => some (viewG g none)
+  | .raised g e => some (viewG g (some e))
+  | .stuck => none
+
+/-- a refinement oracle that answers -/
+def someRefine : PState Rat → Option (LocalResult Rat) := fun _ => some { x := [1/3], fx := 0, nfev := 7 }
+
+/-- the interpreter RUN on the generated tree of `DoGlobalIteration` (3 iterations from a fresh solver) gives the model's result -/
+example : view (run (C 5 F) 0 0 Gen.ProcSrc.doGlobalIteration [("number", 3)] (Glob.ofP {})) =
+    view (POut.ofRes (Proc.doGlobalIteration (P 5 (1/100)) F 3 {} [])) ∧
+    (view (run (C 5 F) 0 0 Gen.ProcSrc.doGlobalIteration [("number", 3)] (Glob.ofP {}))).map (·.log) =
+      some [Event.beforeStart, Event.endIteration [2, 3, 4]] := by decide +kernel
+
+/-- … with an objective that raises at its third call: the exception leaves `DoGlobalIteration`, no `OnEndIteration` -/
+example : view (run (C 5 (failAt 2)) 0 0 Gen.ProcSrc.doGlobalIteration [("number", 3)] (Glob.ofP {})) =
+    view (POut.ofRes (Proc.doGlobalIteration (P 5 (1/100)) (failAt 2) 3 {} [])) ∧
+    (view (run (C 5 (failAt 2)) 0 0 Gen.ProcSrc.doGlobalIteration [("number", 3)] (Glob.ofP {}))).map (fun v => (v.log, v.exc)) =
+      some ([Event.beforeStart], some Raise.objective) := by decide +kernel
+
+/-- the interpreter RUN on the generated tree of `Solve`: total objective; objective raising at its 4th call; with refinement -/
+example : view (run (C 5 F) 1 6 Gen.ProcSrc.solve [] (Glob.ofP {})) = view (.done (Glob.ofP (Proc.solve (P 5 (1/100)) F noRefine {}))) ∧
+    view (run (C 5 (failAt 3)) 1 6 Gen.ProcSrc.solve [] (Glob.ofP {})) =
+      view (.done (Glob.ofP (Proc.solve (P 5 (1/100)) (failAt 3) noRefine {}))) ∧
+    view (run (C 5 (failAt 3) someRefine) 1 6 Gen.ProcSrc.solve [] (Glob.ofP {})) =
+      view (.done (Glob.ofP (Proc.solve (P 5 (1/100)) (failAt 3) someRefine {}))) ∧
+    (view (run (C 5 (failAt 3) someRefine) 1 6 Gen.ProcSrc.solve [] (Glob.ofP {}))).map (fun v => (v.log, v.calls, v.nLocal)) =
+      some ([Event.beforeStart, Event.endIteration [2], Event.endIteration [3], Event.endIteration [4],
+             Event.exceptionPrinted, Event.methodStop false], 4, 7) := by decide +kernel
+
+/-- the tie theorems instantiated at these runs -/
+example := doGlobalIteration_src (C 5 (failAt 2)) 0 0 3 {}
+example := solve_src (C 5 (failAt 3) someRefine) 0 {}
+
+/-- a `Solve` tree at call depth 0 cannot call `self.DoGlobalIteration`: stuck (the hypothesis `d+1` of `solve_src` is needed) -/
+example : view (run (C 5 F) 0 6 Gen.ProcSrc.solve [] (Glob.ofP {})) = none := by decide +kernel
+
+/-- a statement outside the fragment is not silently accepted -/
+example : view (run (C 5 F) 0 0 [.other "self.method.recalc = False"] [] (Glob.ofP {})) = none ∧
+    view (run (C 5 F) 0 0 [.call [] "self.method.RenewSearchData" ["oldpoint", "newpoint"]] [] (Glob.ofP {})) = none ∧
+    view (run (C 5 F) 0 0 Gen.ProcSrc.doLocalRefinement [("number", 1)] (Glob.ofP {})) = none := by decide +kernel
+
+/-! ### seeded edits of the source are NOT equal to the model -/
+
+/-- `DoGlobalIteration` with `UpdateOptimum` and `RenewSearchData` swapped -/
+def dgiSwapped : List Stmt :=
+  [
+    .assign "savedNewPoints" "[]",
+    .forRange "_" "number" [
+      .ite "self.__first_iteration is True" [
+        .forEach "listener" "self.__listeners" [
+          .call [] "listener.BeforeMethodStart" ["self.method"]],
+        .call [] "self.method.FirstIteration" [],
+        .call [] "savedNewPoints.append" ["self.searchData.GetLastItem()"],
+        .assign "self.__first_iteration" "False"] [
+        .call ["newpoint", "oldpoint"] "self.method.CalculateIterationPoint" [],
+        .call [] "savedNewPoints.append" ["newpoint"],
+        .call [] "self.method.CalculateFunctionals" ["newpoint"],
+        .call [] "self.method.RenewSearchData" ["newpoint", "oldpoint"],
+        .call [] "self.method.UpdateOptimum" ["newpoint"],
+        .call [] "self.method.FinalizeIteration" []]],
+    .forEach "listener" "self.__listeners" [
+      .call [] "listener.OnEndIteration" ["savedNewPoints", "self.GetResults()"]]]
+
+/-- **the tie is sensitive to the order `UpdateOptimum`; `RenewSearchData`**: on the swapped tree the interpreter is not stuck,
+and its result differs from the model (the second trial improves the optimum, and the characteristics of the two new intervals
+are computed with the stale `Z`: `13/24`, `625/2304` instead of `1/2`, `529/2304`) -/
+theorem swapped_not_model :
+    run (C 5 F) 0 0 dgiSwapped [("number", 2)] (Glob.ofP {}) ≠ POut.ofRes (Proc.doGlobalIteration (P 5 (1/100)) F 2 {} []) := by
+  intro h
+  have h' := congrArg (fun o => (view o).map (·.items)) h
+  revert h'
+  decide +kernel
+
+example : (view (run (C 5 F) 0 0 dgiSwapped [("number", 2)] (Glob.ofP {}))).map (·.items) =
+    some (some [(0, none), (3, some (13/24)), (2, some (625/2304)), (1, some 1)]) := by decide +kernel
+
+/-- `DoGlobalIteration` without the reset of `__first_iteration` (a stale flag) -/
+def dgiStaleFlag : List Stmt :=
+  [
+    .assign "savedNewPoints" "[]",
+    .forRange "_" "number" [
+      .ite "self.__first_iteration is True" [
+        .forEach "listener" "self.__listeners" [
+          .call [] "listener.BeforeMethodStart" ["self.method"]],
+        .call [] "self.method.FirstIteration" [],
+        .call [] "savedNewPoints.append" ["self.searchData.GetLastItem()"]] [
+        .call ["newpoint", "oldpoint"] "self.method.CalculateIterationPoint" [],
+        .call [] "savedNewPoints.append" ["newpoint"],
+        .call [] "self.method.CalculateFunctionals" ["newpoint"],
+        .call [] "self.method.UpdateOptimum" ["newpoint"],
+        .call [] "self.method.RenewSearchData" ["newpoint", "oldpoint"],
+        .call [] "self.method.FinalizeIteration" []]],
+    .forEach "listener" "self.__listeners" [
+      .call [] "listener.OnEndIteration" ["savedNewPoints", "self.GetResults()"]]]
+
+/-- **the flag is a field of its own**: without `self.__first_iteration = False` the second pass takes the first-iteration
+branch again (a second `BeforeMethodStart` round, then `FirstIteration` on a started method, which the model does not describe) -/
+theorem staleFlag_not_model :
+    run (C 5 F) 0 0 dgiStaleFlag [("number", 2)] (Glob.ofP {}) ≠ POut.ofRes (Proc.doGlobalIteration (P 5 (1/100)) F 2 {} []) := by
+  intro h
+  have h' := congrArg (fun o => (view o).isSome) h
+  revert h'
+  decide +kernel
+
+/-- `Solve` with the `while` loop OUTSIDE the `try` (the `try` inside the loop body) -/
+def solveWhileOutside : List Stmt :=
+  [
+    .call ["startTime"] "datetime.now" [],
+    .while "not self.method.CheckStopCondition()" [
+      .tryExcept [
+        .call [] "self.DoGlobalIteration" []] "BaseException" [
+        .call [] "print" ["'Exception was thrown'"]]],
+    .ite "self.parameters.refineSolution" [
+      .call [] "self.DoLocalRefinement" ["-1"]] [],
+    .call ["result"] "self.GetResults" [],
+    .call ["result.solvingTime"] "(datetime.now() - startTime).total_seconds" [],
+    .forEach "listener" "self.__listeners" [
+      .call ["status"] "self.method.CheckStopCondition" [],
+      .call [] "listener.OnMethodStop" ["self.searchData", "self.GetResults()", "status"]],
+    .ret "result"]
+
+/-- **the tie is sensitive to the nesting of `while` and `try`**: with the loop outside, the search goes on after the
+exception (objective raising at its 4th call only): two more trials, status `true` -/
+theorem whileOutside_not_model :
+    run (C 5 (failAt 3)) 1 6 solveWhileOutside [] (Glob.ofP {}) ≠ .done (Glob.ofP (Proc.solve (P 5 (1/100)) (failAt 3) noRefine {})) := by
+  intro h
+  have h' := congrArg (fun o => (view o).map (·.log)) h
+  revert h'
+  decide +kernel
+
+example : (view (run (C 5 (failAt 3)) 1 6 solveWhileOutside [] (Glob.ofP {}))).map (·.log) =
+    some [Event.beforeStart, Event.endIteration [2], Event.endIteration [3], Event.endIteration [4], Event.exceptionPrinted,
+          Event.endIteration [5], Event.endIteration [6], Event.methodStop true] := by decide +kernel
+
+/-- `Solve` with the first `DoGlobalIteration` moved out of the `try` -/
+def solveFirstOutside : List Stmt :=
+  [
+    .call ["startTime"] "datetime.now" [],
+    .call [] "self.DoGlobalIteration" [],
+    .tryExcept [
+      .while "not self.method.CheckStopCondition()" [
+        .call [] "self.DoGlobalIteration" []]] "BaseException" [
+      .call [] "print" ["'Exception was thrown'"]],
+    .ite "self.parameters.refineSolution" [
+      .call [] "self.DoLocalRefinement" ["-1"]] [],
+    .call ["result"] "self.GetResults" [],
+    .call ["result.solvingTime"] "(datetime.now() - startTime).total_seconds" [],
+    .forEach "listener" "self.__listeners" [
+      .call ["status"] "self.method.CheckStopCondition" [],
+      .call [] "listener.OnMethodStop" ["self.searchData", "self.GetResults()", "status"]],
+    .ret "result"]
+
+/-- **the tie is sensitive to what is inside the `try`**: an objective raising at its first call makes this `Solve` raise
+(no printed line, no `OnMethodStop`), whereas the model (and the real `Solve`) returns -/
+theorem firstOutside_not_model :
+    run (C 5 (failAt 0)) 1 6 solveFirstOutside [] (Glob.ofP {}) ≠ .done (Glob.ofP (Proc.solve (P 5 (1/100)) (failAt 0) noRefine {})) := by
+  intro h
+  have h' := congrArg (fun o => (view o).map (·.exc)) h
+  revert h'
+  decide +kernel
+
+example : (view (run (C 5 (failAt 0)) 1 6 solveFirstOutside [] (Glob.ofP {}))).map (fun v => (v.log, v.exc)) =
+    some ([Event.beforeStart], some Raise.objective) := by decide +kernel
+
+end ProcInterp.Examples
